@@ -330,6 +330,11 @@ func checkPDF(data []byte, m *docModel, r *fw.R) (*findings, [20]byte) {
 						}
 						f.add(class, "glyph %d of the span (%q, source glyph %d): code <%04X> -> CID %d -> glyph %d of the embedded program, whose outline differs from the source glyph's.%s\n embedded: %s\n source:   %s\n %s; %s",
 							i, g.text, g.id, sh.Code, cid, gid, why, clipS(got, 160), clipS(want, 160), pf.describe(), ctx())
+					} else if we, ge := src.fr.ExactKey(g.id), pf.prog.ExactKey(gid); we != ge {
+						// same outline as x/image reads it, but not as the exact readers do
+						// (x/image rounds fractional charstring operands and truncates implied points)
+						f.add("glyph-outline:exact-reader", "glyph %d of the span (%q, source glyph %d): code <%04X> -> glyph %d of the embedded program: x/image reads equal outlines, the exact reader does not.\n embedded: %s\n source:   %s\n %s; %s",
+							i, g.text, g.id, sh.Code, gid, clipS(ge, 300), clipS(we, 300), pf.describe(), ctx())
 					} else {
 						r.Outcome("outline-equal")
 						if want == "" {
